@@ -28,8 +28,9 @@ type sOp struct {
 	Fins     []string          `json:"fins,omitempty"`
 	Labels   map[string]string `json:"labels,omitempty"`
 	Payload  string            `json:"payload,omitempty"`
-	Exp      string            `json:"exp,omitempty"` // expected phase: "" (default) | running | tearingDown | any
+	Exp      string            `json:"exp,omitempty"`     // expected phase: "" (default) | running | tearingDown | any
 	VerRel   string            `json:"ver_rel,omitempty"` // generator hint: cur | stale | future | undef (resolved to Ver at run time if Ver == "")
+	Fault    bool              `json:"fault,omitempty"`   // the backing store rejects the write of this operation (faulty handle only)
 }
 
 func (o sOp) build(t0 time.Time, lastVer map[string]uint64) *Res {
@@ -251,10 +252,10 @@ func genStoreOps(r *rng, n int, singleNS bool) []sOp {
 }
 
 type c01Case struct {
-	Kind    string    `json:"kind"` // seq | conc
-	Handle  string    `json:"handle"`
-	Ops     []sOp     `json:"ops,omitempty"`
-	Threads [][]sOp   `json:"threads,omitempty"`
+	Kind    string  `json:"kind"` // seq | conc
+	Handle  string  `json:"handle"`
+	Ops     []sOp   `json:"ops,omitempty"`
+	Threads [][]sOp `json:"threads,omitempty"`
 }
 
 func runSeqCase(t *testing.T, dir string, c c01Case) (coq string, panics []string, flags map[string]bool) {
@@ -279,7 +280,23 @@ func runSeqCase(t *testing.T, dir string, c c01Case) (coq string, panics []strin
 			time.Sleep(time.Millisecond)
 
 			now := int64(time.Since(t0))
+
+			if o.Fault && h.faults != nil {
+				h.faults.arm()
+			}
+
 			cop, cobs, p := execOp(ctx, h.st, o, t0, lastVer, &mu)
+
+			if o.Fault && h.faults != nil && h.faults.disarm() {
+				// the store was reached and refused: the call must fail with an unclassified error and change nothing
+				if len(cobs) > 6 && cobs[:6] == "(ObErr" {
+					cobs = "(ObFaulted " + cobs[7:]
+				} else {
+					cobs = "(ObFaulted (false, false, false, [true]))" // succeeded despite the store failure: mismatch by construction
+				}
+
+				flags["store_fault"] = true
+			}
 
 			if p != "" {
 				panics = append(panics, p)
@@ -393,7 +410,7 @@ func TestC01(t *testing.T) {
 		cases = append(cases, rf.Case)
 	} else {
 		r := newRng(seed(), "C01")
-		handles := []string{"inmem", "namespaced", "bbolt", "grpc"}
+		handles := []string{"inmem", "namespaced", "bbolt", "grpc", "faulty"}
 
 		// regression corpus first: version conflict classified with qualifiers (finding F1)
 		for _, h := range handles {
@@ -408,11 +425,34 @@ func TestC01(t *testing.T) {
 
 		for _, h := range handles {
 			for range tier(50, 1500) {
-				cases = append(cases, c01Case{Kind: "seq", Handle: h, Ops: genStoreOps(r, 15+r.intn(25), h == "inmem")})
+				ops := genStoreOps(r, 15+r.intn(25), h == "inmem")
+
+				if h == "faulty" {
+					for i := range ops {
+						ops[i].Fault = r.chance(1, 4)
+					}
+				}
+
+				cases = append(cases, c01Case{Kind: "seq", Handle: h, Ops: ops})
 			}
 		}
 
-		for _, h := range handles {
+		// concurrent first use of a namespace: every thread starts by creating the same resource in a fresh namespace
+		for range tier(30, 600) {
+			c := c01Case{Kind: "conc", Handle: "nsrace"}
+			nt := 2 + r.intn(2)
+
+			for ti := range nt {
+				ops := []sOp{{Op: "create", NS: "n2", Typ: "T", ID: "a", VerRel: "undef", Payload: fmt.Sprintf("p%d", ti)}}
+				ops = append(ops, sOp{Op: "create", NS: "n2", Typ: "T", ID: fmt.Sprintf("o%d", ti), VerRel: "undef", Payload: "p0"})
+				ops = append(ops, sOp{Op: pick(r, []string{"get", "list"}), NS: "n2", Typ: "T", ID: "a"})
+				c.Threads = append(c.Threads, ops)
+			}
+
+			cases = append(cases, c)
+		}
+
+		for _, h := range handles[:4] {
 			for range tier(40, 1500) {
 				nt := 2 + r.intn(3)
 				c := c01Case{Kind: "conc", Handle: h}
@@ -521,6 +561,7 @@ func TestC01(t *testing.T) {
 	flushSeq()
 	flushConc()
 
+	rep.CorrIsSpec = true
 	rep.Assumptions = append(rep.Assumptions, "the collection mutex makes each operation body atomic (sampled by the concurrent histories, assumed by the linearizability theorem)")
 	rep.write(t, dir)
 }
